@@ -201,7 +201,8 @@ def jOpt : Option Val → Json
 def simulate : Handler := fun j => do
   let fxj ← j.getObjVal? "fx"
   let fx : Fixes := { gateChecks := ← getBool fxj "gateChecks", syncTaint := ← getBool fxj "syncTaint",
-                      rerunOnce := ← getBool fxj "rerunOnce", minValidate := ← getBool fxj "minValidate", loadFault := ← getBool fxj "loadFault" }
+                      rerunOnce := ← getBool fxj "rerunOnce", minValidate := ← getBool fxj "minValidate", loadFault := ← getBool fxj "loadFault",
+                      checkDeps := (fxj.getObjValAs? Bool "checkDeps").toOption.getD true }
   let P : Params Bytes := { K := serKey, run := concreteRun, fx := fx }
   let files ← getBytesPairs j "files"
   let steps ← (← getArr j "steps").toList.mapM getStep
